@@ -122,6 +122,39 @@ theorem hermite_deriv (p0 m0 p1 m1 : ℝ) :
   · have := cubic_hasDerivAt p0 m0 (-3 * p0 - 2 * m0 + 3 * p1 - m1) (2 * p0 + m0 - 2 * p1 + m1) 1
     convert this using 1; ring
 
+/-- **Locality / independence of the other points** (hardening class 7): the value at time `v` only reads the four
+points `idx-1 … idx+2` around its segment `idx = searchIdx N v`; two point sequences that agree there give the
+same sample — whatever else is in the sequence (or in the rest of a batch). (`idx + 2 ≤ N` holds for every grid time.) -/
+theorem evalAt_congr (N : Nat) (p p' : Nat → ℝ) (v : ℝ) (hle : searchIdx N v + 2 ≤ N)
+    (h : ∀ j, searchIdx N v ≤ j + 1 → j ≤ searchIdx N v + 2 → p j = p' j) : evalAt N p v = evalAt N p' v := by
+  set i := searchIdx N v with hi
+  have e0 : p i = p' i := h i (by omega) (by omega)
+  have e1 : p (i + 1) = p' (i + 1) := h (i + 1) (by omega) (by omega)
+  have hs0 : slope N p i = slope N p' i := by
+    unfold slope
+    simp only [diff1_real]
+    by_cases hz : i = 0
+    · simp only [hz, if_true]
+      rw [hz] at e0 e1; simp only [Nat.zero_add] at e1; rw [e0, e1]
+    · have hne : ¬ i + 1 = N := by omega
+      have em : p (i - 1) = p' (i - 1) := h (i - 1) (by omega) (by omega)
+      have ei : i - 1 + 1 = i := by omega
+      simp only [hz, hne, if_false, ei]
+      rw [e0, e1, em]
+  have hs1 : slope N p (i + 1) = slope N p' (i + 1) := by
+    unfold slope
+    simp only [diff1_real]
+    have hz : ¬ i + 1 = 0 := by omega
+    by_cases hl : i + 1 + 1 = N
+    · have e2 : N - 2 = i := by omega
+      simp only [hz, hl, if_false, if_true, e2]
+      rw [e0, e1]
+    · have e2 : p (i + 1 + 1) = p' (i + 1 + 1) := h (i + 1 + 1) (by omega) (by omega)
+      simp only [hz, hl, if_false, Nat.add_sub_cancel]
+      rw [e0, e1, e2]
+  unfold evalAt
+  simp only [← hi, e0, e1, hs0, hs1]
+
 /-! ## bspline -/
 
 /-- **Pose count**: `(N-3)·k + 1` poses. -/
@@ -195,6 +228,14 @@ theorem bspline_left_equivariant (eps : ℝ) (G : SE3 ℝ) (N kk : Nat) (interva
     by_cases h : N < 4
     · simp [h]
     · simp only [Bool.false_eq_true, if_false, h, Option.map_some, core N P hP]
+
+/-- **A segment only reads its own four control poses** (hardening classes 4/7: no dependence on the rest of the
+sequence, of the batch, or on earlier calls — the model is a pure function of exactly these arguments). -/
+theorem bsplineAt_congr (eps : ℝ) (P P' : Nat → SE3 ℝ) (i : Nat) (u : ℝ)
+    (h : ∀ j, i ≤ j → j ≤ i + 3 → P j = P' j) : bsplineAt eps P i u = bsplineAt eps P' i u := by
+  unfold bsplineAt
+  rw [h i (by omega) (by omega), h (i + 1) (by omega) (by omega), h (i + 2) (by omega) (by omega),
+    h (i + 3) (by omega) (by omega)]
 
 /-- **Constant-twist reproduction, one segment.** If the three relative motions of a segment have the same
 logarithm `ξ` and `Exp` is additive on the three weighted multiples of `ξ` (one-parameter-subgroup law — C01;
@@ -972,6 +1013,22 @@ theorem geodesic_reductions_range (eps : ℝ) (h0 : 0 ≤ eps) (h1 : eps ≤ 1 /
     · rw [h]; simp [Real.pi_pos.le]
     · have hn : (0 : ℝ) < (l.length : ℝ) := by exact_mod_cast h
       rw [div_le_iff₀ hn]; linarith
+
+/-- **Item-wise = batched** (hardening class 7): the loss of a batch is the list of the losses of its items, so an item's
+value cannot depend on the regime of its neighbours. -/
+theorem geodesicAll_append (eps : ℝ) (xs xs' ys ys' : List (Quat ℝ)) (h : xs.length = ys.length) :
+    geodesicAll eps (xs ++ xs') (ys ++ ys') = geodesicAll eps xs ys ++ geodesicAll eps xs' ys' := by
+  unfold geodesicAll
+  exact List.zipWith_append h
+
+/-- APE errors without alignment are computed pose by pose: concatenating trajectories concatenates the error lists. -/
+theorem apeCore_append (eps atol : ℝ) (alignFn : List (Vec3 ℝ) → List (Vec3 ℝ) → Sim3 ℝ) (et : EType)
+    (rp rp' ep ep' : List (SE3 ℝ)) (h : rp.length = ep.length) :
+    apeCore eps atol alignFn et .none (rp ++ rp') (ep ++ ep')
+      = apeCore eps atol alignFn et .none rp ep ++ apeCore eps atol alignFn et .none rp' ep' := by
+  unfold apeCore
+  simp only [transOf, List.map_append]
+  exact List.zipWith_append (by simpa using h)
 
 /-! ### non-vacuity -/
 example : SO3.Valid (⟨0.6, 0, 0, 0.8⟩ : Quat ℝ) := by unfold SO3.Valid; lie_unfold; norm_num
